@@ -1228,14 +1228,14 @@ func runC12(ctx *core.Ctx) {
 			}
 			return l
 		}
-		ps := all(ctx.Pick(4, 5))
+		ps := all(ctx.Pick(3, 5))
 		for _, b := range ps {
 			for _, t := range ps {
 				ctx.Add("c12.rel", map[string]string{"base": b, "targ": t})
 			}
 		}
 		ctx.Count("rel-exhaustive")
-		for i, n := 0, ctx.Pick(5000, 200000); i < n; i++ {
+		for i, n := 0, ctx.Pick(25000, 200000); i < n; i++ {
 			ctx.Add("c12.rel", map[string]string{"base": randPath(), "targ": randPath()})
 			ctx.Count("rel-random")
 		}
